@@ -1274,6 +1274,37 @@ func runC13(c *h.Ctx) {
 			}
 		}
 	}
+	// an operation that leaves an integer as it is (unary plus, floor, ceiling)
+	// returns that integer - the same digits, at the edges of int64 too
+	{
+		k := 0
+		for _, d := range []string{"-9223372036854775808", "9223372036854775807", "-9223372036854775807", "9007199254740993", "-1", "0", "4611686018427387905"} {
+			for _, form := range []string{"(+$).string()", "$.floor().string()", "$.ceiling().string()", "(+(+$)).string()", "(+$).floor().string()", "$.ceiling().abs().string()"} {
+				k++
+				if !c.Mine(k) {
+					continue
+				}
+				want := strings.TrimPrefix(d, "-")
+				if !strings.Contains(form, "abs") {
+					want = d
+				}
+				if strings.Contains(form, "abs") && d == "-9223372036854775808" {
+					continue // (its absolute value is no int64)
+				}
+				p := cachedPath(form)
+				o := h.Call("query", p, h.Decode(d, true), h.Opts{})
+				c.Eval(1)
+				if o.Class == h.Panic {
+					continue
+				}
+				if o.Class != h.OK || len(o.Items) != 1 || o.Items[0] != want {
+					c.Violate("unary.map", h.F("form", "integer-left-as-it-is"), fmt.Sprintf("Query(%s) on the integer %s = %s; the operation does not change the number: %q", form, d, o.Summary(), want), h.Case{Kind: "singleton", Path: form, Doc: d, UseNum: true})
+				} else {
+					c.Held("unary.map")
+				}
+			}
+		}
+	}
 	// random pairs near the boundaries
 	r := c.Rand("c13")
 	n := c.PerShard(c.N(2000000, 20000000))
